@@ -166,6 +166,10 @@ def gen_tokens(repo, out):
 #          "branch" — the narrowing sits in the branch where the comparison holds
 #          "arg"    — the bound is the `max` argument handed to consume_arguments at the named call site
 #          "indirect" — bounded through another guarded quantity (explained in `why`)
+#          "clamp"  — the regex is matched against the OPERAND text itself: `(<quantity> + k).min(<bound>)`, the narrowed
+#                     value is at most <bound> whatever the quantity is (saturation); file/function are None
+#   a guard regex may use the named groups (?P<cmp>) (?P<bound>) and (?P<gadd>) — the constant the guard adds to the quantity
+#   before comparing (`if segments.len() + 2 > MAX`); unnamed regexes use groups (1, 2) = (cmp, bound)
 #   addend: constant added to the guarded quantity before narrowing
 F_C = "laythe_vm/src/compiler/mod.rs"
 F_P = "laythe_vm/src/compiler/parser.rs"
@@ -187,7 +191,11 @@ SITES = [
      [(F_C, "stuff", r"if\s+self\.module_symbol_count\s*(==|>=|>)\s*([^{]+?)\s*\{", "error")], 0, ""),
     ("module_slot_declare", F_C, "declare_module_variable", r"self\.module_symbol_count", "u16", "moduleSymbols",
      [(F_C, "declare_module_variable", r"if\s+self\.module_symbol_count\s*(==|>=|>)\s*([^{]+?)\s*\{", "error")], 0, ""),
-    ("line_number", F_C, "emit_byte", r"line", "u16", "lines", [], 1, "line index of the instruction, then + 1"),
+    # `(line + 1).min(u16::MAX as usize) as u16` (saturating).  The unguarded `line as u16 + 1` of the old text is still
+    # *understood* (operand `line`): it yields a row without a guard, so that C15_limits_guarded fails and names the site.
+    ("line_number", F_C, "emit_byte", r"line|\(line \+ 1\)\.min\([^()]*\)", "u16", "lines",
+     [(None, None, r"\(line \+ 1\)\.min\((?P<bound>[^()]+)\)", "clamp")], 1,
+     "line index of the instruction + 1, saturated at the largest representable line"),
     ("constant_known", F_C, "make_constant", r"\*index", "u16", "constants",
      [(F_C, "make_constant", r"if\s+index\s*(==|>=|>)\s*([^{]+?)\s*\{", "error")], 0,
      "indices in the map were inserted after the check"),
@@ -212,7 +220,10 @@ SITES = [
       (F_C, "make_constant", r"if\s+index\s*(==|>=|>)\s*([^{]+?)\s*\{", "error")], 0,
      "every recorded field becomes a constant of the enclosing chunk in emit_fields"),
     ("interpolate_count", F_C, "interpolation", r"\(?interpolation\.segments\.len\(\) \+ 2\)?", "u16", "interpolationSegments",
-     [(F_P, "interpolation", r"if\s+segments\.len\(\)\s*(==|>=|>)\s*([^{]+?)\s*\{", "error")], 2, "segments + 2"),
+     # the check is the first statement of the `loop {` whose only exit (`StringEnd => { break; }`) pushes nothing, so it
+     # dominates the exit: the final count satisfies the negated comparison
+     [(F_P, "interpolation", r"loop \{ if\s+segments\.len\(\)(?: \+ (?P<gadd>\d+))?\s*(?P<cmp>==|>=|>)\s*(?P<bound>[^{]+?)\s*\{", "error"),
+      (F_P, "interpolation", r"TokenKind::StringEnd => \{ ()(break); \}", "indirect")], 2, "segments + 2"),
     ("list_count", F_C, "list", r"list\.items\.len\(\)", "u16", "listItems",
      [(F_P, "list", r"consume_arguments\(\s*None\s*,\s*TokenKind::RightBracket\s*,\s*()([^)]+?)\s*\)", "arg"),
       (F_P, "consume_arguments", r"if\s+args\.len\(\)\s*(==|>=|>)\s*(max)\s*\{", "error")], 0, ""),
@@ -298,11 +309,13 @@ def gen_limits(repo, out):
         raise TranslateError("expected narrowing sites no longer present: %s" % ", ".join(missing))
     L = [HEADER % ", ".join((F_C, F_P, F_O, F_B)), "namespace LaytheVerif.Gen\n",
          "/-- How a narrowing site is protected. `error`: the dominating check reports a diagnostic; `branch`: the narrowing\n"
-         "sits in the branch where the comparison holds; `none`: no guard found in the source text. -/",
-         "inductive GuardKind where\n  | error | branch | none\n  deriving DecidableEq, Repr\n",
+         "sits in the branch where the comparison holds; `clamp`: the operand itself is `(… ).min(bound)` (saturation);\n"
+         "`none`: no guard found in the source text.  `guardAddend`: the constant the guard adds to the quantity before it\n"
+         "compares (`if segments.len() + 2 > MAX`); `addend`: the constant added to the quantity before it is narrowed. -/",
+         "inductive GuardKind where\n  | error | branch | clamp | none\n  deriving DecidableEq, Repr\n",
          "inductive Cmp where\n  | eq | ge | gt | le | lt | na\n  deriving DecidableEq, Repr\n",
          "structure NarrowSite where\n  id : String\n  file : String\n  fn : String\n  operand : String\n  targetMax : Nat\n"
-         "  quantity : String\n  guard : GuardKind\n  cmp : Cmp\n  bound : Nat\n  addend : Nat\n  guardFn : String\n  deriving DecidableEq, Repr\n",
+         "  quantity : String\n  guard : GuardKind\n  cmp : Cmp\n  bound : Nat\n  guardAddend : Nat\n  addend : Nat\n  guardFn : String\n  deriving DecidableEq, Repr\n",
          "/-- Every `as u8` / `as u16` in the production code of the compiler, with the guard that dominates it. -/",
          "def narrowSites : List NarrowSite := ["]
     cmpname = {"==": "eq", ">=": "ge", ">": "gt", "<=": "le", "<": "lt", "": "na"}
@@ -310,10 +323,19 @@ def gen_limits(repo, out):
     limits = {}
     for spec, operand, target in rows:
         sid, f, fname, _, _, quantity, guards, addend, why = spec
-        kind, cmp_, bound, gfn = "none", "", 0, ""
+        kind, cmp_, bound, gfn, gadd = "none", "", 0, "", 0
         found_all = bool(guards)
         arg_bound = None
         for (gf, gfnname, rx, gkind) in guards:
+            if gkind == "clamp":
+                # saturation written in the operand itself
+                op0 = operand[1:-1].strip() if re.fullmatch(r"\([^()]*\)", operand) else operand
+                m = re.fullmatch(rx, op0)
+                if not m:
+                    found_all = False
+                    break
+                kind, cmp_, bound, gfn, addend = "clamp", "<=", _const(m.group("bound")), "%s::%s" % (os.path.basename(f), fname), 0
+                continue
             bodies = fns[gf].get(gfnname, [])
             m = None
             for (_, _, body) in bodies:
@@ -335,38 +357,55 @@ def gen_limits(repo, out):
             elif gkind == "indirect":
                 pass
             else:
-                cmp_ = m.group(1)
-                b = m.group(2).strip()
+                named = "cmp" in m.re.groupindex
+                cmp_ = m.group("cmp") if named else m.group(1)
+                b = (m.group("bound") if named else m.group(2)).strip()
+                gadd = int(m.group("gadd") or 0) if "gadd" in m.re.groupindex else 0
                 bound = arg_bound if b == "max" else _const(b)
                 if b == "max" and arg_bound is None:
                     raise TranslateError("site %s: `max` without a call-site bound" % sid)
                 kind = gkind
                 gfn = "%s::%s" % (os.path.basename(gf), gfnname)
         if not found_all:
-            kind, cmp_, bound, gfn = "none", "", 0, ""
+            kind, cmp_, bound, gfn, gadd, addend = "none", "", 0, "", 0, spec[7]
+        if gadd > bound:
+            raise TranslateError("site %s: the guard adds %d to the quantity but compares with %d" % (sid, gadd, bound))
         tmax = 255 if target == "u8" else 65535
         rs.append('  { id := "%s", file := "%s", fn := "%s", operand := "%s", targetMax := %d, quantity := "%s", guard := .%s, cmp := .%s, '
-                  'bound := %d, addend := %d, guardFn := "%s" }' % (sid, os.path.basename(f), fname, operand.replace('"', "'"), tmax, quantity,
-                                                                  kind, cmpname[cmp_], bound, addend, gfn))
-        if kind != "none":
-            limits.setdefault(quantity, bound)
+                  'bound := %d, guardAddend := %d, addend := %d, guardFn := "%s" }'
+                  % (sid, os.path.basename(f), fname, operand.replace('"', "'"), tmax, quantity, kind, cmpname[cmp_], bound, gadd, addend, gfn))
+        if kind not in ("none", "clamp"):
+            # the largest count of the quantity the guard lets through
+            limits.setdefault(quantity, bound - gadd)
     L.append(",\n".join(rs))
     L.append("]\n")
     # numeric limits of the front end (the largest count accepted without a diagnostic is derived in Props/C15)
-    L.append("/-- (quantity, bound used by its guard). -/")
+    L.append("/-- (quantity, bound used by its guard minus the constant the guard adds to the quantity). -/")
     L.append("def limits : List (String × Nat) := [")
     L.append(",\n".join('  ("%s", %d)' % (q, b) for q, b in sorted(limits.items())))
     L.append("]\n")
     # label-count limit in peephole_compile
     body = re.sub(r"\s+", " ", block("pub fn peephole_compile", texts[F_O]))
-    m = re.search(r"if label_count > ([^{]+?) \{ (\w+)!", body)
-    L.append("/-- `peephole_compile`: what happens when a function has more labels than the bound (`todo` = host panic). -/")
+    m = re.search(r"if label_count > ([^{]+?) (\{.*)", body)
+    L.append("/-- `peephole_compile`: what happens when a function has more labels than the bound: `diagnostic` = the guarded block\n"
+             "is `return Err(… Diagnostic::error() …)`; a macro name (`todo`, `panic`, `unimplemented`, `unreachable`) = host panic;\n"
+             "`absent` = no such check, `other` = a block that is not understood. -/")
     if m:
-        L.append('def labelLimit : Nat × String := (%d, "%s")\n' % (_const(m.group(1)), m.group(2)))
+        blk = block("", m.group(2)).strip()
+        mac = re.match(r"(todo|panic|unimplemented|unreachable)!", blk)
+        if re.fullmatch(r"return Err\(bumpalo::vec!\[in alloc; Diagnostic::error\(\)\.with_message\(.*\) ?\]\);", blk):
+            what = "diagnostic"
+        elif mac:
+            what = mac.group(1)
+        else:
+            what = "other"
+        L.append('def labelLimit : Nat × String := (%d, "%s")\n' % (_const(m.group(1)), what))
     else:
         L.append('def labelLimit : Nat × String := (0, "absent")\n')
     L += gen_parser_loop(texts[F_P], fns[F_P])
     L += gen_resolver_pairs(repo)
+    L += gen_scope_order(repo)
+    L += gen_loop_depth(repo, texts[F_P], texts[F_C])
     L.append("end LaytheVerif.Gen\n")
     write_if_changed(os.path.join(out, "FrontLimits.lean"), "\n".join(L))
     return rows
@@ -478,6 +517,187 @@ def gen_resolver_pairs(repo):
     # the module-level pre-pass declares, the main pass defines: declare_module_variable callers
     mods = sorted(n for n, bodies in fns.items() if any("declare_module_variable(" in b[2] for b in bodies))
     L.append("def resolverModuleDeclarers : List String := [" + ", ".join('"%s"' % m for m in mods) + "]\n")
+    return L
+
+
+# ---------------------------------------------------------------------------------------------
+# resolver.rs / compiler/mod.rs: the order of the scoping actions of `for_`, `try_`, `catch`
+
+_SCOPE_CALL = re.compile(r"\bself_*\s*\.\s*(declare_variable|define_variable|resolve_variable|variable_get|variable_set|expr|scope|"
+                         r"loop_scope|block|catch|decl|stmt)\(")
+
+# (pass, function) -> [(regex matched right after the `(` of the call, call name, label)]
+_SCOPE_ROWS = {
+    ("resolver", "for_"): [
+        (r"\|self_\| \{", "scope", "scope"), (r"&mut for_\.iter\)", "expr", "iter"),
+        (r"&iterator_token\)", "declare_variable", "declare $iter"), (r"&iterator_token\)", "define_variable", "define $iter"),
+        (r"&for_\.item\)", "declare_variable", "declare item"), (r"&for_\.item\)", "define_variable", "define item"),
+        (r"\|self_\| self_\.block\(&mut for_\.body\)\)", "scope", "scope"), (r"&mut for_\.body\)", "block", "body")],
+    ("resolver", "try_"): [
+        (r"\|self_\| self_\.block\(&mut try_\.block\)\)", "scope", "scope"), (r"&mut try_\.block\)", "block", "body"),
+        (r"\|self_\| self_\.catch\(catch\)\)", "scope", "scope"), (r"catch\)", "catch", "catch")],
+    ("resolver", "catch"): [
+        (r"CLASS_OR_DEFAULT\)", "resolve_variable", "class"),
+        (r"&catch\.name\)", "declare_variable", "declare var"), (r"&catch\.name\)", "define_variable", "define var"),
+        (r"\|self_\| self_\.block\(&mut catch\.block\)\)", "scope", "scope"), (r"&mut catch\.block\)", "block", "body")],
+    ("compiler", "for_"): [
+        (r"for_\.end\(\), &for_\.symbols, \|self_\| \{", "scope", "scope"), (r"&for_\.iter\)", "expr", "iter"),
+        (r"ITER_VAR, iter_span\)", "declare_variable", "declare $iter"),
+        (r"ITER_VAR, SymbolState::LocalInitialized, iter_span\)", "define_variable", "define $iter"),
+        (r"for_\.item\.str\(\), item_span\)", "declare_variable", "declare item"),
+        (r"for_\.item\.str\(\), item_state, item_span\)", "define_variable", "define item"),
+        (r"for_\.body\.end\(\), start_label, end_label, &for_\.body\.symbols, \|self_\| \{", "loop_scope", "scope"),
+        (r"&for_\.body\)", "block", "body")],
+    ("compiler", "try_"): [
+        (r"try_\.block\.end\(\), &try_\.block\.symbols, \|self_\| \{", "scope", "scope"), (r"&try_\.block\)", "block", "body"),
+        (r"catch, try_end_label\)", "catch", "catch")],
+    ("compiler", "catch"): [
+        (r"catch\.end\(\), &catch\.symbols, \|self_\| \{", "scope", "scope"),
+        (r"catch\.class\.as_ref\(\)\.unwrap_or\(default_error\)\)", "variable_get", "class"),
+        (r"catch\.name\.str\(\), catch\.name\.span\(\)\)", "declare_variable", "declare var"),
+        (r"catch\.name\.str\(\), var_state, catch\.span\(\)\)", "define_variable", "define var"),
+        (r"catch\.end\(\), &catch\.block\.symbols, \|self__\| \{", "scope", "scope"), (r"&catch\.block\)", "block", "body")],
+}
+
+# resolver `catch`: the class is named or it is the default `Error` — one lookup either way
+_CATCH_CLASS = re.compile(r"if let Some\(class\) = &catch\.class \{ self\.resolve_variable\(class\) \} else \{ self\.resolve_variable\(&Token::new\( "
+                          r"TokenKind::Identifier, Lexeme::Slice\(ERROR_CLASS_NAME\), catch\.name\.end\(\), catch\.name\.end\(\), \)\); \}")
+# compiler `catch`: the default class token
+_CATCH_DEFAULT = re.compile(r"let default_error = &Token::new\( TokenKind::Identifier, Lexeme::Slice\(ERROR_CLASS_NAME\), ")
+
+
+def gen_scope_order(repo):
+    """the scoping-relevant calls of `for_`, `try_`, `catch` in text order (= execution order: the bodies are straight-line
+    apart from the class-or-default alternative of the resolver's `catch`, which is matched as one unit).  Every call of
+    one of the `_SCOPE_CALL` methods must be one of the expected rows, otherwise the text is not understood."""
+    out = []
+    for pas, rel in (("resolver", "laythe_vm/src/compiler/resolver.rs"), ("compiler", F_C)):
+        fns = _fn_bodies(_production(strip_comments(read(repo, rel))))
+        for fn in ("for_", "try_", "catch"):
+            bodies = fns.get(fn, [])
+            if len(bodies) != 1:
+                raise TranslateError("%s: expected exactly one fn %s" % (rel, fn))
+            body = re.sub(r"\s+", " ", bodies[0][2])
+            if (pas, fn) == ("resolver", "catch"):
+                body, k = _CATCH_CLASS.subn("self.resolve_variable(CLASS_OR_DEFAULT);", body)
+                if k != 1:
+                    raise TranslateError("resolver.rs: catch(): the class-or-default lookup changed shape")
+            if (pas, fn) == ("compiler", "catch") and not _CATCH_DEFAULT.search(body):
+                raise TranslateError("compiler/mod.rs: catch(): the default class token changed shape")
+            labels = []
+            for m in _SCOPE_CALL.finditer(body):
+                rest = body[m.end():]
+                lab = None
+                for rx, call, label in _SCOPE_ROWS[(pas, fn)]:
+                    if call == m.group(1) and re.match(r" ?" + rx, rest):
+                        lab = label
+                        break
+                if lab is None:
+                    raise TranslateError("%s: fn %s: scoping call not understood: `%s%s`" % (rel, fn, m.group(0), rest[:50]))
+                labels.append(lab)
+            out.append(("%s.%s" % (pas, fn), labels))
+    L = ["/-- resolver.rs and compiler/mod.rs: the scoping actions of `for_`, `try_`, `catch` in the order they are performed:\n"
+         "`scope` = a scope is opened, `iter` = the iterable is visited, `class` = the catch class (or the default `Error`) is\n"
+         "looked up, `declare`/`define` of the hidden `$iter`, the loop item, the catch variable, `body` = the block. -/",
+         "def scopeOrder : List (String × List String) := ["]
+    L.append(",\n".join('  ("%s", [%s])' % (n, ", ".join('"%s"' % x for x in ls)) for n, ls in out))
+    L.append("]\n")
+    return L
+
+
+# ---------------------------------------------------------------------------------------------
+# parser.rs `loop_depth` / compiler/mod.rs `loop_attributes`: every mention, and the shape of the save/restore pairs
+
+_LD_KINDS = [  # (kind, regex, number of `loop_depth` tokens it accounts for)
+    ("field", r"loop_depth: u16,", 1), ("init0", r"loop_depth: 0,", 1),
+    ("inc", r"self\.loop_depth \+= 1;", 1), ("dec", r"self\.loop_depth -= 1;", 1),
+    ("check0", r"if self\.loop_depth == 0 \{ return self\.error\(", 1),
+    ("save0", r"let loop_depth = mem::replace\(&mut self\.loop_depth, 0\);", 2),
+    ("restore", r"self\.loop_depth = loop_depth;", 2)]
+
+_LA_KINDS = [
+    ("field", r"loop_attributes: Option<LoopAttributes>,", 1), ("none", r"loop_attributes: None,", 1),
+    ("replace", r"let loop_attributes = LoopAttributes \{ scope_depth: self\.scope_depth, start, end, \}; "
+                r"let enclosing_loop = self\.loop_attributes\.replace\(loop_attributes\);", 3),
+    ("restore", r"self\.loop_attributes = enclosing_loop;", 1),
+    ("expect", r"let loop_attributes = self \.loop_attributes \.expect\(\"Parser should have caught the loop constraint\"\);", 2)]
+
+
+def _mask_strings(src):
+    """blank the braces inside string literals (same length), so that brace matching survives `"Expected '{{' after …"`."""
+    return re.sub(r'"(?:[^"\\\n]|\\.)*"', lambda m: re.sub(r"[{}]", " ", m.group(0)), src)
+
+
+def _sites(src, fns, word, kinds, what, local_uses=()):
+    """every occurrence of `word` in `src` is accounted for by one of `kinds` (or is a read of the local variable of that
+    name in one of the functions `local_uses`); returns [(function, kind)] in text order."""
+    flat = re.sub(r"\s+", " ", src)
+    found = []
+    covered = 0
+    masked = _mask_strings(flat)
+    for kind, rx, ntok in kinds:
+        for m in re.finditer(rx, flat):
+            found.append((m.start(), kind))
+            covered += ntok
+    # positions in `flat` -> enclosing function: redo the function scan on the flattened text
+    ffns = _fn_bodies(masked)
+    rows = []
+    for pos, kind in sorted(found):
+        fn = None
+        for name, bodies in ffns.items():
+            for (a, b, _) in bodies:
+                if a <= pos <= b and (fn is None or a > fn[1]):
+                    fn = (name, a)
+        rows.append((fn[0] if fn else "-", kind))
+    extra = 0
+    for name in local_uses:
+        for (_a, _b, _) in ffns.get(name, []):
+            extra += len(re.findall(r"(?<![.\w])%s\.\w" % word, flat[_a:_b]))
+    total = len(re.findall(r"\b%s\b" % word, flat))
+    if covered + extra != total:
+        raise TranslateError("%s: %d mentions of `%s`, %d understood" % (what, total, word, covered + extra))
+    return rows
+
+
+def gen_loop_depth(repo, parser_src, compiler_src):
+    # bodies from the text with string literals masked (positions preserved), read from the unmasked text
+    pf = {n: [(a, b, parser_src[a + 1:b]) for (a, b, _) in bs] for n, bs in _fn_bodies(_mask_strings(parser_src)).items()}
+    psites = _sites(parser_src, pf, "loop_depth", _LD_KINDS, "parser.rs")
+    csites = _sites(compiler_src, _fn_bodies(compiler_src), "loop_attributes", _LA_KINDS, "compiler/mod.rs",
+                    local_uses=("continue_", "break_"))
+    shape = []
+    lp = _one(pf, "loop_")
+    shape.append(("loop_: inc; cb; dec; result", lp.strip() == "self.loop_depth += 1; let result = cb(self); self.loop_depth -= 1; result"))
+    for fn in ("function", "lambda"):
+        b = _one(pf, fn)
+        m = re.search(r"let loop_depth = mem::replace\(&mut self\.loop_depth, 0\);(.*?)self\.loop_depth = loop_depth;(.*)$", b)
+        # the result of the body is bound to a variable; nothing between save and restore can leave the function
+        ok = bool(m) and not re.search(r"\?|\breturn\b|\bbreak\b|\bcontinue\b", m.group(1)) and \
+            bool(re.match(r" let (\w+) = self\.(?:block\(block_return\)|fun_body\(BlockReturn::Can\))\.map\(", m.group(1)))
+        shape.append(("%s: restore on every path" % fn, ok))
+        # before the save the depth is not touched (early returns of the signature leave it alone)
+        shape.append(("%s: signature before the save" % fn, bool(m) and "loop_depth" not in b[:m.start()]))
+    for fn in ("break_", "continue_"):
+        b = _one(pf, fn)
+        shape.append(("%s: check first" % fn, bool(re.match(r"\s*if self\.loop_depth == 0 \{ return self\.error\(\"Cannot %s from outside of a loop\.\"\); \}" % fn[:-1], b))))
+    users = sorted(n for n, bodies in pf.items() if any(re.search(r"\bself\.loop_\(", x[2]) for x in bodies))
+    catchers = sorted(n for n, bodies in pf.items()
+                      if any(re.search(r"\.or_else\(|\.ok\(\)|\.unwrap_or|if let Ok\(|\.is_err\(\)|\.is_ok\(\)|\.unwrap_or_default\(", x[2]) for x in bodies))
+    L = ["/-- parser.rs: every mention of `loop_depth` as (function, kind): `inc`/`dec` in `loop_`, `check0` = `if self.loop_depth == 0\n"
+         "{ return self.error(…) }`, `save0` = `let loop_depth = mem::replace(&mut self.loop_depth, 0);`, `restore` = `self.loop_depth =\n"
+         "loop_depth;`. -/",
+         "def loopDepthSites : List (String × String) := [" + ", ".join('("%s", "%s")' % r for r in psites) + "]\n",
+         "/-- parser.rs: shape facts the model `Model/LoopDepth.lean` relies on. -/",
+         "def loopDepthShape : List (String × Bool) := [",
+         ",\n".join('  ("%s", %s)' % (n, "true" if ok else "false") for n, ok in shape), "]\n",
+         "/-- parser.rs: the functions that call `self.loop_(…)`. -/",
+         "def loopUsers : List String := [" + ", ".join('"%s"' % u for u in users) + "]\n",
+         "/-- parser.rs: the functions that turn an `Err` of a callee into something else (`.or_else(`, `.ok()`, `unwrap_or`,\n"
+         "`if let Ok(`, `is_err()`/`is_ok()`): the places where a failed parse continues — the model's `decl` nodes. -/",
+         "def errorCatchers : List String := [" + ", ".join('"%s"' % u for u in catchers) + "]\n",
+         "/-- compiler/mod.rs: every mention of the field `loop_attributes` as (function, kind): `none` = a fresh compiler starts\n"
+         "outside of any loop, `replace`/`restore` in `loop_scope`, `expect` = `.expect(\"Parser should have caught the loop constraint\")`. -/",
+         "def loopAttrSites : List (String × String) := [" + ", ".join('("%s", "%s")' % r for r in csites) + "]\n"]
     return L
 
 
